@@ -334,7 +334,7 @@ def structured(name, d):
         gens.append(mp4_inputs(d))
         gens.append(mp4_short_tables(d))
     if fam in ("aiff", "wave", "dff"): gens.append(chunked_inputs(d, fam))
-    if fam == "aiff" and len(d) < 20000: gens.append(aiff_rate_inputs(d, 1))
+    if fam == "aiff" and name == "8k-1ch-1s-silence.aif": gens.append(aiff_rate_inputs(d, 1))     # one file is enough
     if fam == "flac": gens.append(flac_inputs(d))
     if fam == "asf":
         gens.append(asf_inputs(d))
@@ -367,7 +367,7 @@ def _worker(args):
         if items is None and (idx < lo or idx >= hi):
             continue
         # the stride thins only the generic sweeps (byte@ / head@ / trunc@); every structure-aware field input runs
-        if items is None and (idx - lo) % stride and lab.split("@", 1)[0] in ("byte", "head", "trunc"):
+        if items is None and (idx - lo) % stride and lab.split("@", 1)[0] in ("byte", "head", "trunc", "aiff-rate"):
             continue
         for on in chosen:
             probs, calls, nread, dt = c04.contract(ops[on], m)
